@@ -119,8 +119,7 @@ var unmarshalCorpus = []string{
 	"0", "-0", "1", "1.5", "1e5", "1E5", "1e1000", "1e1001", "1E-1000", "1e-1001", "0.1e-1000", "1e300000000", "1E-300000000", "1e2147483648",
 	"0." + strings.Repeat("0", 1000) + "1", "0." + strings.Repeat("0", 999) + "1", "1" + strings.Repeat("0", 1200), "1" + strings.Repeat("0", 1200) + "e1100",
 	"1" + strings.Repeat("0", 1200) + "e1300", strings.Repeat("9", 1005) + "e-1005", strings.Repeat("9", 1005) + "e-1010", "0." + strings.Repeat("0", 1200) + "1e-5",
-	"0." + strings.Repeat("0", 1200) + "1e150", "\"1.5\"", "null", "true", "", "1.", ".5", "+1", "0x10", "1e", "NaN",
-}
+	"0." + strings.Repeat("0", 1200) + "1e150", }
 
 func runStored(o *hx.Opts, res *hx.Result, r *hx.Rand) {
 	w := newShardWriter(o, res, "stored",
@@ -217,8 +216,8 @@ func runStored(o *hx.Opts, res *hx.Result, r *hx.Rand) {
 		if err := y.UnmarshalJSON([]byte(s)); err == nil && s != "null" {
 			bd = toDnum(y)
 		}
-		if s == "null" || strings.HasPrefix(s, "\"") || s == "true" || s == "" {
-			continue // not number tokens: the model speaks about number tokens only
+		if _, ok := parseJSONDoc(s); !ok {
+			continue // the model speaks about valid JSON number tokens only
 		}
 		res.Eval("unmarshal:"+s, true)
 		w.add(fmt.Sprintf("KNumUnmarshal %s %s", hx.Str(s), optDec(bd)), map[string]any{"kind": "number-token", "text_length": len(s)}, fmt.Sprint(bd != nil))
